@@ -187,3 +187,25 @@ func SolveAll(workDir string, obls []*Obligation, timeoutS, par int) {
 	}
 	wg.Wait()
 }
+
+// runAllSolvers runs the three base solvers to completion (no race) on one obligation.
+func runAllSolvers(workDir string, o *Obligation, timeoutS int) map[string]string {
+	h := sha256.Sum256([]byte(o.Script))
+	file := filepath.Join(workDir, "x-"+hex.EncodeToString(h[:8])+".smt2")
+	os.WriteFile(file, []byte(o.Script), 0o644)
+	res := map[string]string{}
+	var mu sync.Mutex
+	var wg sync.WaitGroup
+	for _, s := range solvers[:3] {
+		wg.Add(1)
+		go func(s solverSpec) {
+			defer wg.Done()
+			r := runOne(context.Background(), s, file, timeoutS)
+			mu.Lock()
+			res[s.name] = r.res
+			mu.Unlock()
+		}(s)
+	}
+	wg.Wait()
+	return res
+}
